@@ -475,6 +475,53 @@ func runC07(c *Ctx) {
 		ob.HoldNT("u := scalarBaseMultDirty(privateKey); uToRepresentative(representative, u, tweak); copy(publicKey, u.Bytes()) under success")
 	}
 
+	// the wrapper reports "no representative" only when the inverse map said so
+	ob = c.Obl("R2", "internal/x25519ell2:ScalarBaseMult#status-is-the-maps", "ScalarBaseMult returns false only where uToRepresentative returned false (no other reason refuses a private key: a structured slice of refused keys biases the distribution of the keys that are used)")
+	func() {
+		badS := ""
+		us := p.CallsIn(sbm, M("$M/internal/x25519ell2.uToRepresentative"))
+		if len(us) != 1 {
+			ob.Undecide("%d inverse maps", len(us))
+			return
+		}
+		u := us[0].(*ssa.Call)
+		sff := p.Facts(sbm)
+		for _, r := range returnsOf(sbm) {
+			v := unspill(r.Results[0])
+			if v == ssa.Value(u) {
+				continue // returns the map's own status
+			}
+			k, isK := v.(*ssa.Const)
+			if isK && k.Value != nil && k.Value.String() == "true" {
+				if !hasFact(sff.NC(r.Block()), func(f Fact) bool { return unspill(f.Cond) == ssa.Value(u) && f.Pol }) {
+					badS = "true is returned at " + p.InstrPos(r) + " without the inverse map having succeeded"
+				}
+				continue
+			}
+			if isK && k.Value != nil && k.Value.String() == "false" {
+				if !hasFact(sff.NC(r.Block()), func(f Fact) bool { return unspill(f.Cond) == ssa.Value(u) && !f.Pol }) {
+					badS = "false is returned at " + p.InstrPos(r) + " for a reason other than uToRepresentative's verdict"
+				}
+				continue
+			}
+			if ph, isPhi := v.(*ssa.Phi); isPhi {
+				for _, e := range ph.Edges {
+					if unspill(e) != ssa.Value(u) {
+						if kk, ok := e.(*ssa.Const); !ok || kk.Value == nil {
+							badS = "the status at " + p.InstrPos(r) + " is not the map's verdict"
+						}
+					}
+				}
+				continue
+			}
+			badS = "the status returned at " + p.InstrPos(r) + " is not uToRepresentative's verdict"
+		}
+		if badS != "" {
+			ob.Violate("%s", badS)
+		} else {
+			ob.HoldNT("every exit reports the inverse map's verdict")
+		}
+	}()
 	// ---------------- R3 dirty multiply
 	ob = c.Obl("R3", "internal/x25519ell2:scalarBaseMultDirty#adds-low-order-point", "the clean product [clamp(sk)]B gets a low-order point added before conversion: pk.Add(pk, lop) with lop built from two selectLowOrderPoint results keyed by privateKey[0] and privateKey[0]+2, and the returned u is computed from pk's coordinates after that addition")
 	bad = ""
@@ -691,6 +738,39 @@ func runC07(c *Ctx) {
 		ob.Violate("%s", bad)
 	} else {
 		ob.HoldNT("loop: csrand → SHA-512 → private=digest[:32], tweak=digest[63] → ScalarBaseMult; return only on true")
+	}
+	ob = c.Obl("R4", "common/ntor:(*Representative).ToPublic#receiver-untouched", "decoding a representative does not modify it: ToPublic only reads its receiver (a representative whose pad bits were cleared by an earlier decode is no longer uniform when it is sent later)")
+	if toPub != nil && len(toPub.Params) > 0 {
+		badR := ""
+		for _, e := range arrayEffects(p, toPub, toPub.Params[0]) {
+			if strings.HasPrefix(e.Kind, "read-by:") {
+				continue
+			}
+			if strings.HasPrefix(e.Kind, "passed:") {
+				// handed to a module function: it must not write through it either
+				if call, ok := e.In.(ssa.CallInstruction); ok {
+					wr := false
+					for ai, a := range call.Common().Args {
+						if bufObjKey(a) == bufObjKey(toPub.Params[0]) && p.callMayWriteArg(call, ai, 0) {
+							if sc := call.Common().StaticCallee(); sc != nil && p.inModule(sc) {
+								wr = true
+							}
+						}
+					}
+					if !wr {
+						continue
+					}
+				}
+			}
+			badR = "the receiver is modified (" + e.Kind + " at " + p.InstrPos(e.In) + ")"
+		}
+		if badR != "" {
+			ob.Violate("%s", badR)
+		} else {
+			ob.HoldNT("reads only")
+		}
+	} else {
+		ob.Undecide("ToPublic not found")
 	}
 	ob = c.Obl("R4", "common/ntor:(*Representative).ToPublic#argument-order", "ToPublic decodes the receiver into a fresh public key: RepresentativeToPublicKey(pub.Bytes(), repr.Bytes())")
 	bad = "no call"
